@@ -98,8 +98,10 @@ def tiny_job(case):
         try:
             cards.run(cards.theory(mc=2.0, mb=5.0, mt=170.0, Q0=1.0, **th_kw), cards.obs({name: [dict(x=xb, Q2=Q2)]}, xgrid=g, deg=4, **ob_kw))
             answered, note = 2**30, "answered"
-        except ValueError as ex:
+        except (ValueError, NotImplementedError) as ex:
             answered, note = 0, f"refused: {str(ex)[:80]}"
+        except Exception as ex:      # not an answer either, but not a refusal: reported through the same clause
+            answered, note = 2**30, f"died with {type(ex).__name__}: {str(ex)[:60]}"
         lines.append(dict(what="below", case=case["id"] + "_" + lab, x=xb, xq=int(round(xb * 1e6)), xif=1.0, errs=[["below", answered]], finite=True, note=note))
     return lines
 
